@@ -141,6 +141,10 @@ fn gen_cfg(prop: &str, size: Size) -> GenCfg {
         }
         _ => {}
     }
+    // reserve() changes nothing observable: it may appear anywhere (not in the fixed C17 battery)
+    if prop != "C17" {
+        g.reserve = true;
+    }
     g
 }
 
@@ -467,6 +471,12 @@ fn main() {
                                         run_w1::<u64>(&ctx, &cfg, *idx, &mut cov, &mut ixv::special::SerdeHook { shadows: Vec::new() })
                                     }
                                 }
+                                "C02" if idx % 4 == 3 => {
+                                    // multi-line text payloads: printing is an API call that has to return, too
+                                    run_w1::<Txt>(&ctx, &cfg, *idx, &mut cov, &mut ixv::special::PrintReturnsHook)
+                                }
+                                // a payload type with a destructor (mem::needs_drop::<T>() is true) every third history
+                                _ if idx % 3 == 2 => run_w1::<Tok>(&ctx, &cfg, *idx, &mut cov, &mut NoHook),
                                 _ => run_w1::<Plain>(&ctx, &cfg, *idx, &mut cov, &mut NoHook),
                             };
                             if want_digests {
